@@ -270,6 +270,25 @@ fn check_encoding(cx: &Cx, v: &RefVal, label: &str, bytes: &[u8], family: &str) 
             return;
         }
     }
+    // the other owned entry points accept the same encodings with the same result
+    {
+        let same = |t: &erltf::OwnedTerm| { let g = denote(t); exact_eq(&g, v) || (has_num_equal_keys(v) && exact_eq(&g, &collapse_as_is(v, label.contains("M[1, 0]")))) };
+        let mut cache = erltf::AtomCache::new();
+        match erltf::decode_with_atom_cache(bytes, &mut cache) {
+            Ok((t, None)) if same(&t) => {}
+            other => rep.violation("decode_with_atom_cache disagrees with decode on a valid encoding", json!({"family": family, "value": v.short(), "alternatives": label, "bytes": hex(bytes), "result": format!("{:?}", other.map(|(t, p)| (denote(&t).short(), p.is_some())).map_err(|e| e.to_string()))})),
+        }
+        match erltf::decoder::decode_with_cache(bytes) {
+            Ok((t, None)) if same(&t) => {}
+            other => rep.violation("decode_with_cache disagrees with decode on a valid encoding", json!({"family": family, "value": v.short(), "alternatives": label, "bytes": hex(bytes), "result": format!("{:?}", other.map(|(t, p)| (denote(&t).short(), p.is_some())).map_err(|e| e.to_string()))})),
+        }
+        if bytes.first() == Some(&131) && bytes.get(1) != Some(&80) {
+            match erltf::decoder::decode_raw_term(&bytes[1..]) {
+                Ok(t) if same(&t) => {}
+                other => rep.violation("decode_raw_term disagrees with decode on a valid encoding", json!({"family": family, "value": v.short(), "alternatives": label, "bytes": hex(bytes), "result": format!("{:?}", other.map(|t| denote(&t).short()).map_err(|e| e.to_string()))})),
+            }
+        }
+    }
     // trailing bytes are an error, and decode_with_trailing hands back exactly the remainder
     for junk in [&[0u8][..], &[106u8, 1, 2][..]] {
         let mut b2 = bytes.to_vec();
